@@ -116,6 +116,13 @@ func (q *rpcQueue) Pop(ctx context.Context) (*RPC, error) {
 		// Wake up all the waiting routines. The only routine that correponds
 		// to this Pop call will return from the function. Note that this can
 		// be expensive, if there are too many waiting routines.
+		//
+		// The broadcast must happen under the queue mutex: otherwise it can
+		// land between the waiting routine's context check and its call to
+		// Wait, and the wake-up is lost (Pop then blocks although its context
+		// is cancelled).
+		q.queueMu.Lock()
+		defer q.queueMu.Unlock()
 		q.dataAvailable.Broadcast()
 		verifYield(verifPopCancelBroadcastDone)
 	})
